@@ -198,6 +198,8 @@ package exec
 
 //@ func exec.(*bigmachineExecutor).Run
 //@   requires b != nil && task != nil && b.sess != nil && task.Pragma != nil && procsPragma(task.Pragma) >= 1 && regOK()
+//@   requires invocation-graph: b.invocations != nil && b.invocationDeps != nil && invGraphOK(b)
+//@   may_panic
 //@   flag chan_nonnil
 //@   flag trust_nil_safety
 //@   ensures  request-clamped: implies(offerCalls > old(offerCalls), offerCalls == old(offerCalls) + 1 && lastOfferProcs == ite(exclusivePragma(task.Pragma) || procsPragma(task.Pragma) > lastOfferMgr.machprocs, lastOfferMgr.machprocs, procsPragma(task.Pragma)))
@@ -576,12 +578,16 @@ package exec
 //@ func exec.(*bigmachineExecutor).addInvocation (inv) (added, err)
 //@   requires b != nil && b.invocations != nil && b.invocationDeps != nil && invGraphOK(b)
 //@   may_panic
-//@   ensures  first-time: added == !old(has(b.invocations, inv.Index)) && err == nil
+//@   ensures  first-time: added == !old(has(b.invocations, inv.Index))
 //@   ensures  recorded: has(b.invocations, inv.Index)
 //@   ensures  graph-ok: invGraphOK(b)
+//@   ensures  results-become-references: implies(added, forall(i, 0, len(inv.Args), ite(hastype(old(inv.Args[i]), *Result), hastype(inv.Args[i], invocationRef) && unbox(inv.Args[i], invocationRef).Index == unbox(old(inv.Args[i]), *Result).invIndex && has(b.invocationDeps[inv.Index], unbox(old(inv.Args[i]), *Result).invIndex), inv.Args[i] == old(inv.Args[i]))))
 //@   ensures  others-kept: forall(k, uint64, implies(old(has(b.invocations, k)), has(b.invocations, k) && b.invocations[k] == old(b.invocations[k])))
 //@   modifies b.invocations[:], b.invocationDeps[:], b.invocationDeps[inv.Index][:], inv.Args[:], b.mu
 //@   loop 1 invariant b.invocations != nil && b.invocationDeps != nil && !has(b.invocations, inv.Index)
+//@   loop 1 invariant substituted: forall(i, 0, range_idx, ite(hastype(old(inv.Args[i]), *Result), hastype(inv.Args[i], invocationRef) && unbox(inv.Args[i], invocationRef).Index == unbox(old(inv.Args[i]), *Result).invIndex, inv.Args[i] == old(inv.Args[i])))
+//@   loop 1 invariant rest-untouched: forall(i, range_idx, len(inv.Args), inv.Args[i] == old(inv.Args[i]))
+//@   loop 1 invariant deps-recorded: forall(i, 0, range_idx, implies(hastype(old(inv.Args[i]), *Result), has(b.invocationDeps[inv.Index], unbox(old(inv.Args[i]), *Result).invIndex)))
 //@   loop 1 invariant forall(k, uint64, has(b.invocations, k) == old(has(b.invocations, k)) && b.invocations[k] == old(b.invocations[k]))
 //@   loop 1 invariant forall(k, uint64, forall(j, uint64, implies(has(b.invocationDeps[k], j), has(b.invocations, j) && (has(b.invocations, k) || k == inv.Index))))
 //@   loop 1 invariant b.invocationDeps[inv.Index] == old(b.invocationDeps[inv.Index]) || fresh(b.invocationDeps[inv.Index])
